@@ -267,6 +267,9 @@ pub struct Facts {
     pub error_loc_differs: u32,
     pub actions: u32,
     pub items: u32,
+    /// The first InvalidToken was raised by an attempt that read end-of-input (the stream ends
+    /// right after it).
+    pub first_invalid_at_eoi: bool,
 }
 
 #[derive(Debug, Clone)]
@@ -440,6 +443,9 @@ pub fn run_model<M: Matcher>(m: &mut M, case: &Case) -> ModelOut {
                     // Lexeme boundary at end of input, EOI pending: Init ends the stream, any
                     // other rule set reports an error (no `$` rule matched).
                     if set != 0 {
+                        if facts.invalid == 0 {
+                            facts.first_invalid_at_eoi = true;
+                        }
                         facts.invalid += 1;
                         facts.invalid_in_non_init += 1;
                         facts.eoi_error_non_init += 1;
@@ -451,6 +457,9 @@ pub fn run_model<M: Matcher>(m: &mut M, case: &Case) -> ModelOut {
                         facts.ended_in_non_init = true;
                     }
                     break;
+                }
+                if facts.invalid == 0 && sc.examined == n + 1 {
+                    facts.first_invalid_at_eoi = true;
                 }
                 facts.invalid += 1;
                 if set != 0 {
